@@ -55,6 +55,7 @@ type Exec struct {
 	modMemo  map[*ssa.Function]map[string]bool
 	modBusy  map[*ssa.Function]bool
 	retPaths int
+	kinds    map[string]int
 	coverPC  [][]string
 }
 
